@@ -2,6 +2,7 @@
 from hypothesis import strategies as st
 from ..outcome import fail, inconclusive, passed
 from ..refs import c05_tankgen as G
+from .. import spec as S
 
 ID = 'C06'
 LEVEL = 'exploration'
@@ -61,6 +62,9 @@ def strategy(draw, tier='quick'):
                       'end': draw(st.sampled_from([None, None, dur // 2 + 900]))}
         if tk['leak']['start'] is not None and tk['leak']['end'] is not None and tk['leak']['end'] <= tk['leak']['start']:
             tk['leak']['end'] = None
+    h = S.draw_history(draw, st, case['opts'])
+    if h:
+        case['history'] = h
     return case
 
 
